@@ -8,13 +8,24 @@ def b (s : String) : Bytes := s.toUTF8.toList
 inductive Dir | asc | desc
 deriving DecidableEq, Repr
 
+/-- names of WITH sub-queries: fixed names chosen by the planners, or `subsel_<k>` from `ctx.Id()` -/
+inductive Alias | named (s : String) | sub (k : Nat)
+deriving DecidableEq, Repr
+
+def Alias.text : Alias → String
+  | .named s => s
+  | .sub k => "subsel_" ++ toString k
+
 mutual
 inductive Expr where
   | raw (s : String)                        -- RawObject: column references, table names, constants
   | str (s : Bytes)                         -- StringVal
   | int (i : Int)                           -- IntVal
   | col (e : Expr) (alias : String)         -- Col / SimpleCol
-  | withRef (alias : String)                -- WithRef (not inlined)
+  | withRef (alias : Alias)                 -- WithRef (not inlined)
+  | lit (s : String)                        -- 'text' written with Sprintf("'%s'"): NOT escaped (identifiers only)
+  | tsLabels                                -- the labels-map expression of TimeSeriesInitPlanner
+  | numLit (s : String)                     -- FloatVal rendered with %f
   | isIn (l : Expr) (r : List Expr)         -- In
   | logical (fn : String) (cs : List Expr)  -- LogicalOp: and / or / == / != / < / <= / > / >=
   | not (e : Expr)                          -- CNot
@@ -25,8 +36,8 @@ inductive Expr where
   | orderBy (e : Expr) (d : Dir)            -- OrderBy
   | sub (s : Sel)                           -- a sub-select used as an object
 inductive Sel where
-  | mk (withs : List (String × Sel)) (distinct : Bool) (cols : List Expr) (from_ : Option Expr)
-       (joins : List (String × Expr × Expr)) (preWhere wher : Option Expr) (groupBy : List Expr)
+  | mk (withs : List (Alias × Sel)) (distinct : Bool) (cols : List Expr) (from_ : Option Expr)
+       (joins : List (String × Alias × Expr)) (preWhere wher : Option Expr) (groupBy : List Expr)
        (having : Option Expr) (orderBy : List Expr) (limit : Option Expr)
 end
 
@@ -38,13 +49,20 @@ def joinB (sep : Bytes) : List Bytes → Bytes
 def natDigits (n : Nat) : Bytes := (toString n).toUTF8.toList
 def intText (i : Int) : Bytes := (toString i).toUTF8.toList
 
+def tsLabelsText : String :=
+  "mapFromArrays(arrayMap(x -> x.1, JSONExtractKeysAndValues(time_series.labels, 'String') as rawlbls), " ++
+  "arrayMap(x -> x.2, rawlbls))"
+
 mutual
 def renderExpr : Expr → Bytes
   | .raw s => b s
   | .str s => quote s
   | .int i => intText i
   | .col e a => if a.isEmpty then renderExpr e else renderExpr e ++ b " as " ++ b a
-  | .withRef a => b a
+  | .withRef a => b a.text
+  | .lit s => b "'" ++ b s ++ b "'"
+  | .tsLabels => b tsLabelsText
+  | .numLit s => b s
   | .isIn l r => renderExpr l ++ b " IN (" ++ joinB (b ",") (renderExprs r) ++ b ")"
   | .logical fn cs => joinB (b " " ++ b fn ++ b " ") (renderParens cs)
   | .not e => b "!(" ++ renderExpr e ++ b ")"
@@ -62,13 +80,13 @@ def renderParens : List Expr → List Bytes
   | o :: os => (b "(" ++ renderExpr o ++ b ")") :: renderParens os
 def renderShift (i : Nat) : List Expr → List Bytes
   | [] => []
-  | o :: os => (b "bitShiftLeft(" ++ renderExpr o ++ b ", " ++ natDigits i ++ b ")") :: renderShift (i + 1) os
-def renderWiths : List (String × Sel) → List Bytes
+  | o :: os => (b "bitShiftLeft(toUInt64(" ++ renderExpr o ++ b "), " ++ natDigits i ++ b ")") :: renderShift (i + 1) os
+def renderWiths : List (Alias × Sel) → List Bytes
   | [] => []
-  | (a, s) :: ws => (b a ++ b " as (" ++ renderSelBody s ++ b ")") :: renderWiths ws
-def renderJoins : List (String × Expr × Expr) → Bytes
+  | (a, s) :: ws => (b a.text ++ b " as (" ++ renderSelBody s ++ b ")") :: renderWiths ws
+def renderJoins : List (String × Alias × Expr) → Bytes
   | [] => []
-  | (tp, tbl, on) :: js => b " " ++ b tp ++ b " JOIN " ++ renderExpr tbl ++ b " ON " ++ renderExpr on ++ renderJoins js
+  | (tp, tbl, on) :: js => b " " ++ b tp ++ b " JOIN " ++ b tbl.text ++ b " ON " ++ renderExpr on ++ renderJoins js
 /-- a select without its own WITH clause (`STRING_OPT_SKIP_WITH`) -/
 def renderSelBody : Sel → Bytes
   | .mk _ distinct cols from_ joins pre wher gb having ob limit =>
